@@ -19,7 +19,7 @@ import json  # noqa: F401
 from sim import env, fingerprint as fp, gen, ops, sched
 
 PROP = 'C14'
-MODES = ('dense', 'mixed', 'purge', 'match')
+MODES = ('dense', 'mixed', 'purge', 'match', 'sweep')
 BOUNDS = (1, 2, 3, 5, 8, 500)
 
 # Patterns that pack the five "special" functional pseudo-classes densely (S1 of DESIGN.md).
@@ -29,6 +29,14 @@ SPECIAL_POOL = [
     'li:nth-last-of-type(-n+2)', ':-soup-contains-own(hello, world)', ':is(:dir(rtl), :lang("*-DE"))',
     'a:lang(en):nth-child(1):dir(ltr)', ':has(> :nth-child(2)):lang(de)', ':contains(x)',
 ]
+
+
+# patterns that go through the internal HTML-only selector lists (whatever a changed tree does lazily or per purge
+# with them happens while these are compiled)
+PURGE_POOL = ['input:checked', ':default', ':link', ':any-link', ':read-only', ':read-write', ':disabled', ':enabled',
+              ':required', ':optional', ':placeholder-shown', ':indeterminate', ':in-range', ':out-of-range',
+              'p:nth-child(2)', ':is(:checked, :disabled)', ':not(:read-only)', 'form :default, a:link', ':root',
+              ':lang(en)', ':dir(ltr)', 'option:checked:enabled']
 
 
 def _seeded(rng):
@@ -41,6 +49,20 @@ def gen_match_workload(rng):
     nthreads = rng.choice([2, 2, 3])
     docs = [gen.gen_doc(rng, max_size=rng.choice([10, 18, 28])) for _ in range(rng.choice([1, 1, 2]))]
     keys = []
+    if rng.random() < 0.2 and docs[0].get('detach') is None:
+        docs[0]['detach'] = rng.randint(0, 60)
+    if any(d.get('detach') is not None for d in docs):
+        # a parentless fragment shared by the threads: structural pseudo-classes on its root vs. questions about
+        # the root and its ancestors
+        for _ in range(rng.randint(2, 4)):
+            pat = rng.choice(gen.ROOT_NTH_POOL + gen.DETACHED_POOL)
+            keys.append({'pattern': pat, 'ns': None, 'custom': None, 'flags': 0, 'uses_scope': ':scope' in pat,
+                         'special': 0})
+    if {('xml' if d['parser'] == 'xml' else 'html') for d in docs} == {'xml', 'html'}:
+        for _ in range(2):
+            pat = rng.choice(gen.CASE_POOL)
+            keys.append({'pattern': pat, 'ns': {'x': gen.NS_X} if pat.startswith('x|') else None, 'custom': None,
+                         'flags': 0, 'uses_scope': False, 'special': 0})
     for d in docs:
         for feat in gen.markup_features(d['markup']):
             if rng.random() < 0.5:
@@ -57,15 +79,15 @@ def gen_match_workload(rng):
         else:
             keys.append(gen.gen_key(rng, selgen_kw={'simple': True, 'stateful_bias': 0.7, 'invalid': 0.03,
                                                      'lexical': 0.05}, ns_bias=0.25, custom_bias=0.15))
-    keys = keys[:6]
+    keys = keys[:7]
     programs = []
     for _ in range(nthreads):
         prog = []
         for _ in range(rng.randint(1, 3)):
-            kind = rng.choice(['select', 'select', 'iselect', 'match', 'filter', 'closest', 'select_one'])
+            kind = rng.choice(['select', 'select', 'iselect', 'match', 'match', 'filter', 'closest', 'closest', 'select_one'])
             op = {'op': kind, 'key': rng.randrange(len(keys)), 'doc': rng.randrange(len(docs)),
                   'target': -1 if rng.random() < 0.5 else rng.randint(0, 40),
-                  'form': rng.choice(['module', 'compiled', 'precompiled', 'precompiled'])}
+                  'form': rng.choice(['module', 'compiled', 'precompiled', 'precompiled', 'bs4'])}
             if kind in ('select', 'iselect'):
                 op['limit'] = rng.choice([0, 0, 0, 2])
             prog.append(op)
@@ -100,6 +122,10 @@ def gen_workload(rng, mode):
             s = g.one()
             keys.append({'pattern': s.text if rng.random() < 0.5 else rng.choice(names), 'ns': None,
                          'custom': cm, 'flags': 0, 'uses_scope': s.uses_scope, 'special': s.special})
+    if mode == 'purge':
+        for _ in range(rng.randint(2, 4)):
+            keys.append({'pattern': rng.choice(PURGE_POOL), 'ns': None, 'custom': None, 'flags': 0,
+                         'uses_scope': False, 'special': 0})
     docs = []
     if not dense:
         for _ in range(rng.choice([1, 1, 2])):
@@ -109,16 +135,16 @@ def gen_workload(rng, mode):
         prog = []
         for _ in range(rng.randint(1, 6 if dense else 4)):
             k = rng.randrange(len(keys))
-            if dense or rng.random() < 0.45:
-                prog.append({'op': 'compile', 'key': k})
-            elif mode == 'purge' and rng.random() < 0.25:
+            if mode == 'purge' and rng.random() < 0.35:
                 prog.append({'op': 'purge'})
+            elif dense or rng.random() < (0.7 if mode == 'purge' else 0.45):
+                prog.append({'op': 'compile', 'key': k})
             else:
                 kind = rng.choice(ops.QUERY_OPS)
                 op = {
                     'op': kind, 'key': k, 'doc': rng.randrange(len(docs)),
                     'target': rng.choice([-1, -1, rng.randint(0, 40)]),
-                    'form': rng.choice(['module', 'module', 'compiled', 'precompiled']),
+                    'form': rng.choice(['module', 'module', 'compiled', 'precompiled', 'bs4']),
                 }
                 if kind in ('select', 'iselect'):
                     op['limit'] = rng.choice([0, 0, 0, 1, 2])
@@ -127,23 +153,32 @@ def gen_workload(rng, mode):
     if mode == 'purge' and not any(o['op'] == 'purge' for p in programs for o in p):
         programs[rng.randrange(nthreads)].append({'op': 'purge'})
     return {'mode': mode, 'keys': keys, 'docs': docs, 'programs': programs,
-            'lower_pressure': rng.choice([0, 0, 0, 505, 511, 512, 600])}
+            'lower_pressure': rng.choice([0, 0, 0, 505, 511, 512, 600]),
+            # bytecode-granularity scheduling (sched.Sim(opcodes=True)) is implemented but switched off: per-opcode
+            # tracing of generator-heavy code with several threads segfaults CPython 3.12.1 (2 of 18 runs)
+            'opcodes': False}
 
 
 def gen_policy_spec(rng, ref_steps):
     """Draw a schedule policy (as data) for this run."""
 
     r = rng.random()
-    if r < 0.35:
+    if r < 0.28:
         p = math.exp(rng.uniform(math.log(0.001), math.log(0.3)))
         return {'name': 'bernoulli', 'p': p}
+    if r < 0.40:
+        total = max(10, sum(sum(x) + len(x) + 1 for x in ref_steps))
+        d = rng.choice([1, 2, 2, 3, 4])
+        return {'name': 'pct', 'points': sorted(rng.randint(1, total) for _ in range(d - 1)),
+                'seed': rng.getrandbits(32)}
     if r < 0.6:
         k = rng.choice([1, 1, 2, 2, 3])
         pts = []
         for _ in range(k):
             tid = rng.randrange(len(ref_steps))
             total = max(2, sum(ref_steps[tid]) + len(ref_steps[tid]) + 1)
-            hold = None if rng.random() < 0.6 else rng.randint(1, 200)
+            r2 = rng.random()
+            hold = None if r2 < 0.45 else ('op' if r2 < 0.75 else rng.randint(1, 200))
             pts.append([tid, rng.randint(1, total), hold])
         return {'name': 'k-preempt', 'points': pts}
     if r < 0.85:
@@ -157,32 +192,43 @@ def make_policy(spec, rng):
     if n == 'bernoulli':
         return sched.Bernoulli(rng, spec['p'])
     if n == 'k-preempt':
-        return sched.KPreempt(rng, {(a, b): c for a, b, c in spec['points']})
+        return sched.KPreempt(rng, {(a, b): c for a, b, c in spec['points']}, spec.get('first'))
     if n == 'after-return':
         return sched.AfterReturn(rng, spec['p'], spec.get('p_other', 0.0))
     if n == 'round-robin':
         return sched.RoundRobin(spec['q'], spec.get('start', 0))
+    if n == 'pct':
+        return sched.PCT(random.Random(spec.get('seed', 0)), spec.get('nthreads', 4), spec['points'])
     if n == 'replay':
         return sched.Replay(spec['segments'])
     raise ValueError(n)
 
 
 class _Counter:
-    """Counting-only tracer for the sequential reference pass."""
+    """Counting-only tracer for the sequential reference pass (also notes the steps that directly follow the
+    return of a traced callee: the generic position of a store-then-read / check-then-act window)."""
 
     def __init__(self, prefix):
         self.n = 0
         self.prefix = prefix
+        self.after = False
+        self.after_return_steps = []
 
     def glob(self, frame, event, arg):
         if event == 'call' and frame.f_code.co_filename.startswith(self.prefix):
             self.n += 1
+            self.after = False
             return self.local
         return None
 
     def local(self, frame, event, arg):
         if event == 'line':
             self.n += 1
+            if self.after:
+                self.after_return_steps.append(self.n)
+                self.after = False
+        elif event == 'return':
+            self.after = True
         return self.local
 
 
@@ -205,6 +251,8 @@ def reference_pass(sv, ctx, workload, count_steps=True):
                 finally:
                     sys.settrace(None)
                 ss.append(c.n)
+                if workload.get('mode') == 'sweep':
+                    workload.setdefault('_after_return', {})[(len(ref), len(rr))] = c.after_return_steps
             else:
                 res = ops.safe_run(ctx, op)
                 ss.append(0)
@@ -226,25 +274,31 @@ def _reference_child(sv, workload, count_steps):
                 ctx.precompile(op['key'])
     try:
         with env.wall_guard(8.0):
-            return reference_pass(sv, ctx, workload, count_steps)
+            out = reference_pass(sv, ctx, workload, count_steps)
+            if workload.get('mode') == 'sweep':
+                out = tuple(out) + ({f'{a}:{b}': v for (a, b), v in workload.pop('_after_return', {}).items()},)
+            return out
     except env.SlowOperation:
         sys.settrace(None)
         return {'discarded': 'slow-operation-in-reference-pass'}
 
 
-def execute(sv, workload, policy_spec, sched_seed=0, bound=None, docs=None, count_steps=True):
+def execute(sv, workload, policy_spec, sched_seed=0, bound=None, docs=None, count_steps=True, ref_pack=None):
     """Run one workload under one schedule.  Returns a result dict (pure data)."""
 
     # The "run alone" reference is computed in a forked child, so that this process reaches the concurrent run without
     # having used the library at all: races that only exist at FIRST use (lazy initialisation) stay reachable.
     from sim import runner
-    try:
-        got = runner.isolated(_reference_child, sv, workload, count_steps, hang_s=20)
-    except runner.IsolatedTimeout:
-        return {'discarded': 'reference-pass-killed-at-deadline(stuck-in-C-code)'}
+    if ref_pack is not None:
+        got = ref_pack
+    else:
+        try:
+            got = runner.isolated(_reference_child, sv, workload, count_steps, hang_s=20)
+        except runner.IsolatedTimeout:
+            return {'discarded': 'reference-pass-killed-at-deadline(stuck-in-C-code)'}
     if isinstance(got, dict):
         return got
-    ref, ref_steps, ref_keys = got
+    ref, ref_steps, ref_keys = got[:3]
     ctx = ops.Ctx(sv, workload['keys'], workload['docs'], docs=docs)
     # 'precompiled' forms are prepared outside the simulated run
     for prog in workload['programs']:
@@ -263,11 +317,14 @@ def execute(sv, workload, policy_spec, sched_seed=0, bound=None, docs=None, coun
         low = sys.modules['soupsieve.util'].lower
         for j in range(pressure):
             low('Pad%dX' % j)
+    if policy_spec.get('name') == 'pct':
+        policy_spec['nthreads'] = len(workload['programs'])
     policy = make_policy(policy_spec, random.Random(sched_seed))
     programs = [[(lambda s, tid, o=op: ops.run_op(ctx, o)) for op in prog] for prog in workload['programs']]
     kinds = [[('compile' if op['op'] == 'compile' else ('purge' if op['op'] == 'purge' else 'query')) for op in prog]
              for prog in workload['programs']]
-    sim = sched.Sim(programs, policy, prefix=env.repo_pkg_dir(), op_kinds=kinds)
+    sim = sched.Sim(programs, policy, prefix=env.repo_pkg_dir(), op_kinds=kinds,
+                    opcodes=bool(workload.get('opcodes')), max_steps=12_000_000)
     sim.run()
 
     violation = None
@@ -350,8 +407,119 @@ def _j(x):
     return x
 
 
-def run_seeded(sv, run_seed, mode, bound):
+# ---------------------------------------------------------------------------
+# systematic depth-1 sweep: one whole peer operation injected at every step of a victim operation
+# ---------------------------------------------------------------------------
+
+_SWEEP_DOC = {
+    'markup': ('<html lang="en"><head><meta http-equiv="content-language" content="de"></head><body><form><input '
+               'type="radio" name="r" checked><input type="radio" name="R"><input type="submit"></form><div dir="rtl">'
+               '<p class="a">hello</p><p lang="de">x</p><a href="#x">l</a></div><ul><li>1</li><li>2</li></ul></body></html>'),
+    'parser': 'html.parser', 'mut': [],
+}
+_SWEEP_CUSTOM = {':--a': ':--b > span', ':--b': 'div, section', ':--c': ':--a:not(:--b)'}
+
+
+def sweep_pairs():
+    """Deterministic catalogue of (victim operation, injected peer operation) pairs."""
+
+    pats = PURGE_POOL[:12] + SPECIAL_POOL[:7]
+    keys = [{'pattern': p_, 'ns': None, 'custom': None, 'flags': 0} for p_ in pats]
+    keys.append({'pattern': ':--c, :--a', 'ns': None, 'custom': _SWEEP_CUSTOM, 'flags': 0})
+    keys.append({'pattern': 'p:--b', 'ns': None, 'custom': _SWEEP_CUSTOM, 'flags': 0})
+    kc, kc2 = len(keys) - 2, len(keys) - 1
+    pairs = []
+    for k in range(len(pats)):
+        victim = {'op': 'compile', 'key': k}
+        other = (k + 5) % len(pats)
+        for peer in ({'op': 'purge'}, {'op': 'compile', 'key': k}, {'op': 'compile', 'key': other}):
+            pairs.append((victim, peer))
+    for peer in ({'op': 'purge'}, {'op': 'compile', 'key': kc}, {'op': 'compile', 'key': kc2}):
+        pairs.append(({'op': 'compile', 'key': kc}, peer))
+    for k in (1, 11, 13, 14, 18):
+        victim = {'op': 'select', 'key': k, 'doc': 0, 'target': -1, 'form': 'module', 'limit': 0}
+        for peer in ({'op': 'purge'}, {'op': 'select', 'key': k, 'doc': 0, 'target': -1, 'form': 'module', 'limit': 0},
+                     {'op': 'match', 'key': (k + 3) % len(pats), 'doc': 0, 'target': 6, 'form': 'compiled'}):
+            pairs.append((victim, peer))
+    # purge-by-peer pairs first (the quick tier sweeps only those), then same-key peers, then the rest
+    def rank(pp):
+        v, q = pp
+        if q['op'] == 'purge':
+            return 0
+        if q.get('key') == v.get('key'):
+            return 1
+        return 2
+    pairs.sort(key=rank)
+    return keys, pairs
+
+
+SWEEP_BATCH = 20
+
+
+def run_sweep(sv, index, bound, active=None):
+    """Run number ``index`` of the sweep: pair index % npairs, batch index // npairs of that pair's injection points
+    (points right after a callee returned first, then all the others)."""
+
+    from sim import runner
+    keys, pairs = sweep_pairs()
+    if active:
+        pairs = pairs[:active]
+    pi, batch = index % len(pairs), index // len(pairs)
+    victim, peer = pairs[pi]
+    workload = {'mode': 'sweep', 'keys': keys, 'docs': [_SWEEP_DOC], 'programs': [[victim], [peer]],
+                'lower_pressure': 0, 'opcodes': False, 'pair': pi}
+    try:
+        got = runner.isolated(_reference_child, sv, workload, True, hang_s=20)
+    except runner.IsolatedTimeout:
+        return {'discarded': 'reference-pass-killed-at-deadline(stuck-in-C-code)'}
+    if isinstance(got, dict):
+        return got
+    length = got[1][0][0]
+    first = list(got[3].get('0:0', []))
+    rest = [s_ for s_ in range(1, length + 2) if s_ not in set(first)]
+    points = (first + rest)[batch * SWEEP_BATCH:(batch + 1) * SWEEP_BATCH]
+    res = None
+    digests = []
+    tot_steps = tot_sw = 0
+    for st in points:
+        # thread steps count the thread's 'start' step too, operation steps do not
+        spec = {'name': 'k-preempt', 'points': [[0, st + 1, 'op']], 'first': 0}
+        try:
+            r = runner.isolated(execute, sv, workload, spec, 0, bound, None, False, got[:3], hang_s=60)
+        except runner.IsolatedTimeout:
+            continue
+        digests.append(r['digest'])
+        tot_steps += r['steps']
+        tot_sw += r['switches']
+        if res is None or (r['violation'] and not res['violation']):
+            res = r
+        if r['violation']:
+            break
+    if res is None:
+        # beyond the end of this pair's victim operation: nothing left to inject
+        return {'discarded': 'sweep-batch-beyond-end-of-operation'}
+    res = dict(res)
+    res['steps'] = tot_steps
+    res['switches'] = tot_sw
+    if not res['violation']:
+        res['digest'] = fp.h(digests, 12)
+    res['probes'] = dict(res['probes'])
+    res['probes']['sweep_injection_points'] = len(digests)
+    res['probes']['sweep_after_return_points'] = sum(1 for st in points if st in set(first))
+    res['workload'] = workload
+    res['bound'] = bound
+    res['sweep'] = {'pair': pi, 'batch': batch, 'victim': victim, 'peer': peer, 'victim_steps': length,
+                    'after_return_points': len(first)}
+    return res
+
+
+def run_seeded(sv, run_seed, mode, bound, index=None, active=None):
     """One seeded run: workload, policy and schedule all derive from ``run_seed``."""
+
+    if mode == 'sweep':
+        res = run_sweep(sv, index or 0, bound, active)
+        res['run_seed'] = run_seed
+        return res
 
     rng = random.Random(run_seed)
     workload = gen_workload(rng, mode)
@@ -380,24 +548,28 @@ def replay(sv, rec):
 
 def plan(tier):
     if tier == 'thorough':
-        scale, budget = 14, 1150
+        scale, budget = 28, 1500
     else:
-        scale, budget = 1, 80
+        scale, budget = 1, 85
     cfgs = []
 
     def add(mode, bound, nruns, chunk):
         cfgs.append({'name': f'{mode}-k{bound}', 'mode': mode, 'bound': bound, 'nruns': nruns * scale, 'chunk': chunk})
 
-    add('dense', 3, 5000, 50)
-    add('dense', 500, 2500, 50)
-    add('dense', 1, 2500, 50)
-    add('mixed', 2, 1200, 25)
-    add('mixed', 500, 1200, 25)
-    add('mixed', 5, 600, 25)
-    add('purge', 3, 1200, 25)
-    add('purge', 8, 600, 25)
-    add('match', 500, 1500, 20)
-    add('match', 2, 700, 20)
+    add('dense', 3, 2500, 50)
+    add('dense', 500, 1200, 50)
+    add('dense', 1, 1200, 50)
+    add('mixed', 2, 600, 25)
+    add('mixed', 500, 600, 25)
+    add('mixed', 5, 300, 25)
+    add('purge', 3, 900, 25)
+    add('purge', 8, 450, 25)
+    add('match', 500, 700, 20)
+    add('match', 2, 300, 20)
+    # systematic depth-1 sweep (one whole peer operation injected at every step of a victim operation): the thorough
+    # tier walks the whole catalogue, the quick tier the purge-by-peer pairs (after-return points first)
+    cfgs.append({'name': 'sweep-k500', 'mode': 'sweep', 'bound': 500, 'chunk': 12,
+                 'nruns': 25 * 14 if tier != 'thorough' else 75 * 190, 'pairs': 25 if tier != 'thorough' else 75})
     return {'budget_s': budget, 'configs': cfgs, 'minimise_budget': 300}
 
 
@@ -413,12 +585,15 @@ def make_record(res, cfg=None, index=None):
         'faults': [],
         'policy': {k: v for k, v in (res.get('policy') or {}).items() if k != 'segments'},
         'switch_trace': res.get('switch_trace'),
+        'sweep': res.get('sweep'),
         'violation': res['violation'],
         'digest': res['digest'],
         'steps': res['steps'],
         'cost': res['steps'],
         'versions': env.versions(),
-        'granularity': 'pre-emption at line/call events inside soupsieve frames; C code atomic (GIL)',
+        'granularity': ('pre-emption at BYTECODE boundaries inside soupsieve frames (finer than the GIL hands over on '
+                        'CPython 3.12; realisable on free-threaded builds)' if res['workload'].get('opcodes') else
+                        'pre-emption at line/call events inside soupsieve frames; C code atomic (GIL)'),
     }
 
 
@@ -441,7 +616,7 @@ def _one_run(sv, verif_seed, cfg, i, nsamples):
     from sim import runner
     agg = runner.Agg()
     seed = _derive(verif_seed, cfg['name'], i)
-    res = run_seeded(sv, seed, cfg['mode'], cfg['bound'])
+    res = run_seeded(sv, seed, cfg['mode'], cfg['bound'], index=i, active=cfg.get('pairs'))
     if res.get('discarded'):
         agg.count('discarded:' + res['discarded'])
         agg.digests[f"{cfg['name']}:{i}"] = 'discarded'
@@ -456,6 +631,7 @@ def _one_run(sv, verif_seed, cfg, i, nsamples):
     agg.count('mode:' + cfg['mode'])
     agg.count('bound:%s' % cfg['bound'])
     agg.count('threads:%d' % res['nthreads'])
+    agg.count('granularity:' + ('opcode' if res['workload'].get('opcodes') else 'line'))
     for k, v in res['probes'].items():
         agg.count('probe:' + k, v)
         agg.count('runs_with:' + k)
@@ -739,6 +915,7 @@ def evidence(agg, info, plan_, tier):
         'workload_modes': {k[5:]: v for k, v in c.items() if k.startswith('mode:')},
         'cache_bounds_used': {k[6:]: v for k, v in c.items() if k.startswith('bound:')},
         'thread_counts': {k[8:]: v for k, v in c.items() if k.startswith('threads:')},
+        'granularity': {k[12:]: v for k, v in c.items() if k.startswith('granularity:')},
         'faults_fired': {'purge-by-peer': c.get('mode:purge', 0), 'small-cache(bound<500)': sum(
             v for k, v in c.items() if k.startswith('bound:') and k != 'bound:500')},
         'probes': probes,
